@@ -17,6 +17,7 @@ import (
 	"math/rand"
 	"os"
 	"os/exec"
+	"runtime"
 	"sort"
 	"strings"
 	"sync"
@@ -37,9 +38,26 @@ type c26Run struct {
 	Phases [][]c26Op `json:"phases"`
 }
 
+// c26Storm: ONE registry; K pipes created and closed at once, W workers running
+// create/get/dump/delete (every 5th round create/get/close on a fresh name) on
+// names of their own for Ms milliseconds across the expiry of the grace period.
+type c26Storm struct {
+	K  int `json:"k"`
+	W  int `json:"w"`
+	Ms int `json:"ms"`
+}
+
+type c26StormObs struct {
+	Died       bool     `json:"died,omitempty"`
+	Unexpected bool     `json:"unexpected,omitempty"`
+	Final      [][2]int `json:"final"`
+	Rounds     int      `json:"rounds,omitempty"`
+}
+
 type c26Case struct {
-	Src  string   `json:"src"`
-	Runs []c26Run `json:"runs"`
+	Src   string    `json:"src"`
+	Runs  []c26Run  `json:"runs"`
+	Storm *c26Storm `json:"storm,omitempty"`
 }
 
 type c26Phase struct {
@@ -143,7 +161,7 @@ func (c26) Gen(seed int64, tier string, emit func(any)) {
 	cr := func(n int) c26Op { return c26Op{"create", n} }
 	de := func(n int) c26Op { return c26Op{"delete", n} }
 	// design-phase witnesses F26 (each killed the shell two seconds later), and the null pipe
-	emit(c26Case{"corpus", []c26Run{
+	emit(c26Case{Src: "corpus", Runs: []c26Run{
 		{[][]c26Op{{cr(1), cl(1), cl(1)}}},
 		{[][]c26Op{{cr(1), cl(1), de(1)}}},
 		{[][]c26Op{{cr(1), cl(1), de(1), cr(1)}, {{"get", 1}, cr(1)}}},
@@ -154,10 +172,21 @@ func (c26) Gen(seed int64, tier string, emit func(any)) {
 	if tier == "thorough" {
 		maxLen, nrand, batch = 6, 9000, 400
 	}
+	// concurrent storms ride along with the first batches (separate child, same wall time)
+	storms := 3
+	if tier == "thorough" {
+		storms = 10
+	}
+	sr := rand.New(rand.NewSource(seed + 1000003))
 	var cur []c26Run
 	flush := func(src string) {
 		if len(cur) > 0 {
-			emit(c26Case{src, cur})
+			c := c26Case{Src: src, Runs: cur}
+			if storms > 0 {
+				storms--
+				c.Storm = &c26Storm{K: 250 + sr.Intn(200), W: 4 + sr.Intn(5), Ms: 3000}
+			}
+			emit(c)
 			cur = nil
 		}
 	}
@@ -253,7 +282,115 @@ func c26Exec(run c26Run) c26RunObs {
 	return obs
 }
 
+func c26RunStorm(st c26Storm) c26StormObs {
+	var o c26StormObs
+	n := pipes.NewNamed()
+	var unexpected, rounds int64
+	var mu sync.Mutex
+	bad := func() { mu.Lock(); unexpected++; mu.Unlock() }
+	for i := 0; i < st.K; i++ {
+		if n.CreatePipe(fmt.Sprintf("closed%d", i), "std", "") != nil {
+			bad()
+		}
+	}
+	for i := 0; i < st.K; i++ {
+		if n.Close(fmt.Sprintf("closed%d", i)) != nil {
+			bad()
+		}
+	}
+	deadline := time.Now().Add(time.Duration(st.Ms) * time.Millisecond)
+	var wg sync.WaitGroup
+	for w := 0; w < st.W; w++ {
+		wg.Add(1)
+		go func(w int) {
+			defer wg.Done()
+			name := fmt.Sprintf("w%d", w)
+			for r := 0; time.Now().Before(deadline); r++ {
+				if r%5 == 4 {
+					fresh := fmt.Sprintf("w%d_%d", w, r)
+					if n.CreatePipe(fresh, "std", "") != nil {
+						bad()
+					}
+					if _, err := n.Get(fresh); err != nil {
+						bad()
+					}
+					if n.Close(fresh) != nil {
+						bad()
+					}
+				} else {
+					if n.CreatePipe(name, "std", "") != nil {
+						bad()
+					}
+					if _, err := n.Get(name); err != nil {
+						bad()
+					}
+					if d := n.Dump(); d[name] != "std" || d["null"] != "null" {
+						bad()
+					}
+					if n.Delete(name) != nil {
+						bad()
+					}
+					if n.Delete(name) == nil { // missing now: must be an error
+						bad()
+					}
+				}
+				mu.Lock()
+				rounds++
+				mu.Unlock()
+				runtime.Gosched()
+			}
+		}(w)
+	}
+	wg.Wait()
+	time.Sleep(c26Grace)
+	o.Final = c26Dump(&n)
+	o.Unexpected = unexpected > 0
+	o.Rounds = int(rounds)
+	return o
+}
+
+func c26SpawnStorm(st c26Storm) c26StormObs {
+	in, _ := json.Marshal(st)
+	cmd := exec.Command(os.Args[0], "child", "C26", "storm")
+	cmd.Stdin = bytes.NewReader(in)
+	var out bytes.Buffer
+	cmd.Stdout = &out
+	if err := cmd.Start(); err != nil {
+		die("C26: cannot start storm child: %v", err)
+	}
+	done := make(chan error, 1)
+	go func() { done <- cmd.Wait() }()
+	select {
+	case err := <-done:
+		if err != nil {
+			return c26StormObs{Died: true} // fatal error: concurrent map writes, panic, ...
+		}
+	case <-time.After(time.Duration(st.Ms)*time.Millisecond + 120*time.Second):
+		cmd.Process.Kill()
+		<-done
+		return c26StormObs{Died: true}
+	}
+	for _, l := range strings.Split(out.String(), "\n") {
+		if strings.HasPrefix(l, "C26STORM ") {
+			var o c26StormObs
+			if json.Unmarshal([]byte(l[len("C26STORM "):]), &o) == nil {
+				return o
+			}
+		}
+	}
+	return c26StormObs{Died: true}
+}
+
 func (c26) Child(args []string) {
+	if len(args) > 0 && args[0] == "storm" {
+		var st c26Storm
+		if err := json.NewDecoder(os.Stdin).Decode(&st); err != nil {
+			die("C26 storm child: %v", err)
+		}
+		b, _ := json.Marshal(c26RunStorm(st))
+		os.Stdout.Write(append([]byte("C26STORM "), append(b, '\n')...))
+		os.Exit(0)
+	}
 	var c c26Case
 	if err := json.NewDecoder(os.Stdin).Decode(&c); err != nil {
 		die("C26 child: %v", err)
@@ -368,7 +505,22 @@ func (c26) Run(raw json.RawMessage) Result {
 	if err := json.Unmarshal(raw, &c); err != nil {
 		die("C26: bad case: %v", err)
 	}
-	obs, ok := c26Spawn(c)
+	var stormObs *c26StormObs
+	stormDone := make(chan struct{})
+	if c.Storm != nil {
+		go func() {
+			o := c26SpawnStorm(*c.Storm)
+			stormObs = &o
+			close(stormDone)
+		}()
+	} else {
+		close(stormDone)
+	}
+	var obs []c26RunObs
+	ok := true
+	if len(c.Runs) > 0 {
+		obs, ok = c26Spawn(c26Case{Src: c.Src, Runs: c.Runs})
+	}
 	crashes := 0
 	if !ok {
 		// the batch died: run every registry in its own child to find the culprit(s)
@@ -381,7 +533,7 @@ func (c26) Run(raw json.RawMessage) Result {
 			go func(i int) {
 				defer wg.Done()
 				defer func() { <-sem }()
-				o, ok := c26Spawn(c26Case{c.Src, []c26Run{c.Runs[i]}})
+				o, ok := c26Spawn(c26Case{Src: c.Src, Runs: []c26Run{c.Runs[i]}})
 				if !ok {
 					obs[i] = c26RunObs{Crashed: true}
 				} else {
@@ -394,7 +546,7 @@ func (c26) Run(raw json.RawMessage) Result {
 	// a registry whose calls were delayed past the grace period (overloaded machine) is run again on its own
 	for i := range c.Runs {
 		for try := 0; try < 3 && obs[i].Slow && !obs[i].Crashed; try++ {
-			if o, ok := c26Spawn(c26Case{c.Src, []c26Run{c.Runs[i]}}); ok {
+			if o, ok := c26Spawn(c26Case{Src: c.Src, Runs: []c26Run{c.Runs[i]}}); ok {
 				obs[i] = o[0]
 			}
 		}
@@ -444,7 +596,21 @@ func (c26) Run(raw json.RawMessage) Result {
 	if len(c.Runs) <= 3 {
 		summary["obs"] = obs
 	}
-	return Result{Obs: summary, Coq: coqlit.Record("c_runs", coqlit.List(runs)), Nontrivial: nontrivial, Class: class}
+	<-stormDone
+	storms := []string{}
+	if c.Storm != nil {
+		so := "StormDied"
+		if !stormObs.Died {
+			so = coqlit.App("StormSurvived", coqlit.Bool(stormObs.Unexpected), c26CoqPairs(stormObs.Final))
+		} else {
+			class += "/storm-died"
+		}
+		storms = append(storms, coqlit.Record("s_pipes", coqlit.N(uint64(c.Storm.K)), "s_workers", coqlit.N(uint64(c.Storm.W)), "s_obs", so))
+		summary["storm"] = stormObs
+		class += "+storm"
+		nontrivial = true
+	}
+	return Result{Obs: summary, Coq: coqlit.Record("c_runs", coqlit.List(runs), "c_storms", coqlit.List(storms)), Nontrivial: nontrivial, Class: class}
 }
 
 // Shrink: split the batch; for a single registry drop one phase or one call.
@@ -454,12 +620,27 @@ func (c26) Shrink(raw json.RawMessage) []any {
 		return nil
 	}
 	var out []any
+	if c.Storm != nil {
+		if len(c.Runs) > 0 {
+			return []any{c26Case{Src: c.Src, Runs: []c26Run{}, Storm: c.Storm}, c26Case{Src: c.Src, Runs: c.Runs}}
+		}
+		if c.Storm.K > 50 {
+			out = append(out, c26Case{Src: c.Src, Runs: []c26Run{}, Storm: &c26Storm{K: c.Storm.K / 2, W: c.Storm.W, Ms: c.Storm.Ms}})
+		}
+		if c.Storm.W > 1 {
+			out = append(out, c26Case{Src: c.Src, Runs: []c26Run{}, Storm: &c26Storm{K: c.Storm.K, W: c.Storm.W / 2, Ms: c.Storm.Ms}})
+		}
+		return out
+	}
+	if len(c.Runs) == 0 {
+		return nil
+	}
 	if len(c.Runs) > 1 {
 		h := len(c.Runs) / 2
-		out = append(out, c26Case{c.Src, c.Runs[:h]}, c26Case{c.Src, c.Runs[h:]})
+		out = append(out, c26Case{Src: c.Src, Runs: c.Runs[:h]}, c26Case{Src: c.Src, Runs: c.Runs[h:]})
 		if len(c.Runs) <= 8 {
 			for _, r := range c.Runs {
-				out = append(out, c26Case{c.Src, []c26Run{r}})
+				out = append(out, c26Case{Src: c.Src, Runs: []c26Run{r}})
 			}
 		}
 		return out
@@ -468,7 +649,7 @@ func (c26) Shrink(raw json.RawMessage) []any {
 	for i := range r.Phases {
 		if len(r.Phases) > 1 {
 			ph := append(append([][]c26Op(nil), r.Phases[:i]...), r.Phases[i+1:]...)
-			out = append(out, c26Case{c.Src, []c26Run{{ph}}})
+			out = append(out, c26Case{Src: c.Src, Runs: []c26Run{{ph}}})
 		}
 		for j := range r.Phases[i] {
 			ph := make([][]c26Op, len(r.Phases))
@@ -476,7 +657,7 @@ func (c26) Shrink(raw json.RawMessage) []any {
 				ph[k] = append([]c26Op(nil), r.Phases[k]...)
 			}
 			ph[i] = append(ph[i][:j], ph[i][j+1:]...)
-			out = append(out, c26Case{c.Src, []c26Run{{ph}}})
+			out = append(out, c26Case{Src: c.Src, Runs: []c26Run{{ph}}})
 		}
 	}
 	return out
